@@ -34,6 +34,10 @@ var (
 	// PoolPutHook, when set, is called with every object handed to Put while
 	// the scheduler is active (harnesses poison freed buffers with it).
 	PoolPutHook func(x any)
+
+	// PoolDoublePut, when set, is called when a pointer that is already in the
+	// pool's free list is put again (two later Gets would own the same object).
+	PoolDoublePut func(x any)
 )
 
 //go:norace
@@ -112,6 +116,18 @@ func (p *PoolState) Take() *PoolEntry {
 func (p *PoolState) PutPoint() {
 	p.register()
 	point(opNone, nil)
+}
+
+// Holds reports whether the free list already holds the object (pointer identity).
+//
+//go:norace
+func (p *PoolState) Holds(x any) bool {
+	for j := 0; j < p.n; j++ {
+		if p.free[j].Obj == x {
+			return true
+		}
+	}
+	return false
 }
 
 // Give pushes an entry on the free list.
